@@ -198,6 +198,8 @@ func (u *universe) randCall(r *rand.Rand) Call {
 		return Call{"Associate", []string{c(), n()}}
 	case k < 98:
 		return Call{"Dissociate", []string{c(), n()}}
+	case k < 99:
+		return Call{"String", nil}
 	default:
 		return Call{"Wipe", nil}
 	}
